@@ -10,10 +10,10 @@ import (
 // Alloc that go/ssa could not lift to registers, e.g. a named result captured by
 // a deferred closure).  A nil *ssa.Store stands for the cell's zero value at entry.
 type CellDefs struct {
-	Fn    *ssa.Function
-	Cell  *ssa.Alloc
-	in    map[*ssa.BasicBlock]map[*ssa.Store]bool
-	zero  map[*ssa.BasicBlock]bool // the zero value reaches the block's entry
+	Fn     *ssa.Function
+	Cell   *ssa.Alloc
+	in     map[*ssa.BasicBlock]map[*ssa.Store]bool
+	zero   map[*ssa.BasicBlock]bool // the zero value reaches the block's entry
 	Stores []*ssa.Store
 }
 
